@@ -144,7 +144,7 @@ def run(ctx):
                         continue
                     third = []
                     for t in (pa.string, pb.string):
-                        for fam in dense.family_texts(cls, t):
+                        for _kind, fam in dense.family_texts(cls, t):
                             for x in fam:
                                 try:
                                     third.append(cls(x))
